@@ -170,3 +170,46 @@ def c_fit_v(ctx, case):
         vals.append(ref.jfa_marginal_v(mean, sig, np.array(f.V), classes))
     inc = check_mono(ctx, vals, "V(fit)")
     ctx.note(inc, "K=%d" % K)
+
+
+def g_array(draw):
+    from vf.props import c11
+
+    c = c11.g_fit(draw)
+    c["jfa"] = True
+    if c["V"] is None:
+        r = gen.rng(draw)
+        p = c["ubm"]
+        c["V"] = np.sqrt(p["variances"]).ravel()[:, None] * r.normal(0, 1, (p["C"] * p["F"], gen.integer(draw, 1, 2)))
+    c["dask"] = gen.choice(draw, [True, True, False])
+    return c
+
+
+@REG.obligation("array_entry_runs_the_same_phases", g_array, quick=80, thorough=1500, shard_size=14)
+def c_array(ctx, case):
+    """JFAMachine.fit_using_array (in memory, or on a row-chunked Dask array with tasks run in a generated order, with
+    or without serialised copies) runs the same three phases as fit on the UBM statistics of the same arrays: same V,
+    U and D.  Classes appear in any order in the rows."""
+    import dask.array as da
+
+    from vf import sched
+
+    X, y = case["X"], np.asarray(case["y"])
+    a = sut.make_fa(case, em_iterations=case["em"])
+    b = sut.make_fa(case, em_iterations=case["em"])
+    first_seen = list(dict.fromkeys(y.tolist()))
+    ctx.note(first_seen != sorted(first_seen), "dask" if case["dask"] else "numpy",
+             "classes-first-seen-out-of-order" if first_seen != sorted(first_seen) else "classes-first-seen-in-order",
+             "equal-class-sizes" if len(set(np.bincount(y).tolist())) == 1 else "unequal-class-sizes")
+    if case["dask"]:
+        chunks = (tuple(case["chunks"]),) + tuple((s,) for s in X.shape[1:])
+        with sched.owned("random", int(case.get("order_seed", 0)), bool(case.get("isolate", False))):
+            a.fit_using_array(da.from_array(X, chunks=chunks), y)
+    else:
+        a.fit_using_array(X, y)
+    b.fit(b.ubm.transform(X), y)
+    for name in "VUD":
+        ga, gb = np.asarray(getattr(a, name), float), np.asarray(getattr(b, name), float)
+        ctx.finite(ga, name)
+        ctx.close(ga, gb, "fit_using_array %s vs fit on the statistics of the same arrays" % name, rtol=1e-7,
+                  atol=1e-9 * (np.abs(gb).max() + 1e-300))
